@@ -226,6 +226,7 @@ func finish(propID, tier string, cfg *CheckConfig, ld *Loaded, results []*Harnes
 			v    *Violation
 			s    *Sample
 			kind string
+			alt  map[string]string
 		}
 		var refs []ref
 		var names []string
@@ -240,6 +241,10 @@ func finish(propID, tier string, cfg *CheckConfig, ld *Loaded, results []*Harnes
 				v := r.Violations[k]
 				cases = append(cases, caseJSON{Harness: r.Name, Inputs: v.Inputs})
 				refs = append(refs, ref{r: r, v: v, kind: "viol"})
+				for _, alt := range v.Alt {
+					cases = append(cases, caseJSON{Harness: r.Name, Inputs: alt})
+					refs = append(refs, ref{r: r, v: v, kind: "viol", alt: alt})
+				}
 			}
 			for i := range r.Samples {
 				s := &r.Samples[i]
@@ -280,6 +285,12 @@ func finish(propID, tier string, cfg *CheckConfig, ld *Loaded, results []*Harnes
 			nr := nres[i]
 			switch rf.kind {
 			case "viol":
+				if rf.v.confirmed {
+					continue // an earlier model of this violation already reproduced
+				}
+				if rf.alt != nil {
+					rf.v.Inputs = rf.alt
+				}
 				ok := false
 				if strings.HasPrefix(rf.v.Label, "panic: ") {
 					ok = nr.Outcome == "panic"
@@ -294,9 +305,12 @@ func finish(propID, tier string, cfg *CheckConfig, ld *Loaded, results []*Harnes
 					}
 				}
 				if !ok {
-					mismatches++
-					rf.r.Inconclusive[fmt.Sprintf("ENCODER-MISMATCH: candidate %q did not reproduce natively (native outcome %s %s)", rf.v.Label, nr.Outcome, nr.Label)]++
-					fmt.Printf("ENCODER-MISMATCH property=%s harness=%s label=%q inputs=%v native=%s %s\n", propID, rf.r.Name, rf.v.Label, rf.v.Inputs, nr.Outcome, nr.Label)
+					rf.v.failedReplays++
+					if rf.v.failedReplays == 1+len(rf.v.Alt) {
+						mismatches++
+						rf.r.Inconclusive[fmt.Sprintf("ENCODER-MISMATCH: candidate %q did not reproduce natively in %d model(s) (native outcome %s %s)", rf.v.Label, rf.v.failedReplays, nr.Outcome, nr.Label)]++
+						fmt.Printf("ENCODER-MISMATCH property=%s harness=%s label=%q inputs=%v native=%s %s\n", propID, rf.r.Name, rf.v.Label, rf.v.Inputs, nr.Outcome, nr.Label)
+					}
 					continue
 				}
 				rf.v.confirmed = true
@@ -321,7 +335,7 @@ func finish(propID, tier string, cfg *CheckConfig, ld *Loaded, results []*Harnes
 						same = false
 					} else {
 						for j := range nr.Obs {
-							if nr.Obs[j] != rf.s.Obs[j] {
+							if nr.Obs[j] != rf.s.Obs[j] && !strings.HasSuffix(rf.s.Obs[j], "=?") {
 								same = false
 							}
 						}
